@@ -22,6 +22,7 @@ import (
 	"slices"
 	"strings"
 	"sync"
+	"unicode/utf8"
 
 	"github.com/tailscale/setec/acl"
 	"github.com/tailscale/setec/audit"
@@ -227,6 +228,10 @@ func (db *DB) GetVersion(caller Caller, name string, version api.SecretVersion) 
 func (db *DB) Put(caller Caller, name string, value []byte) (api.SecretVersion, error) {
 	if name == "" {
 		return 0, errors.New("empty secret name")
+	} else if !utf8.ValidString(name) {
+		// The database and the audit log are JSON, which cannot carry such a
+		// name: it would come back as a different name after a restart.
+		return 0, errors.New("secret name is not valid UTF-8")
 	}
 	if err := db.checkAndLog(caller, acl.ActionPut, name, 0); err != nil {
 		return 0, err
